@@ -148,7 +148,8 @@ class World:
         I.store_cell(o, L.S_l, 4, len(key["b"]))
         I.store_cell(o, L.S_sig, 1, int(self.signatures))
         I.store_cell(o, L.S_bsig, 144, GE("G1", key["bsig"]))
-        arr = Obj(name + ".b", L.F_size * max(len(key["b"]), 1), "arg", 16, const)
+        # exactly as many entries as the key has free slots (a key without free slots has an empty array: any access to it is out of bounds)
+        arr = Obj(name + ".b", L.F_size * len(key["b"]), "arg", 16, const)
         for j, (slot, p) in enumerate(key["b"]):
             I.store_cell(arr, L.F_size * j + L.F_hexp, 144, GE("G1", p))
             I.store_cell(arr, L.F_size * j + L.F_idx, 4, slot)
